@@ -177,7 +177,8 @@ Record cfg := mkCfg {
   non_loss : key -> bool;              (* key in NON_LOSS_METRICS *)
   wavg : key -> option key;            (* weighted-average rule: the weight key *)
   chain_ok : Z -> Z -> bool;           (* cell.prev_evaluation_date == current_evaluation_date, on tags *)
-  first_ok : Z -> bool                 (* prev_evaluation_date + 1 day == period_start, on the tag *)
+  first_ok : Z -> bool;                (* prev_evaluation_date + 1 day == period_start, on the tag *)
+  set_order : list key -> list key     (* iteration order of `set(cells[0].values.keys())`: hash order, an oracle *)
 }.
 
 Fixpoint zip {A B} (xs : list A) (ys : list B) : list (A * B) :=
@@ -353,19 +354,20 @@ Definition thin_cell_mutant (cell : val) (ndxs : list nat) : M val :=
 
 (* ------------------------------------------------------------------ basis.py *)
 (* {k: next[k] if k == "earned_premium" else curr[k] (+|-) next[k] for k in curr_keys} *)
-Definition values_combine (op : Z -> Z -> Z) (swap : bool) (a next : val) : M items :=
+(* `for k in curr_keys` iterates a SET (set_order): with several offending keys the first one decides
+   which refusal is raised *)
+Definition values_combine (c : cfg) (op : Z -> Z -> Z) (swap : bool) (a next : val) : M items :=
   da <- get_dict a ;; dn <- get_dict next ;;
   if negb (same_keys da dn) then raise TriangleError
-  else mapM (fun kv =>
-               let k := fst kv in
-               match dget k dn with
-               | None => raise KeyError
-               | Some nv => if (k =? EP)%Z then ret (k, nv)
-                            else r <- (if swap then binop op nv (snd kv) else binop op (snd kv) nv) ;;
-                                 ret (k, r)
-               end) da.
-Definition values_add (cur next : val) : M val := d <- values_combine Z.add false cur next ;; new_dict d.
-Definition values_diff (prev next : val) : M val := d <- values_combine Z.sub true prev next ;; new_dict d.
+  else mapM (fun k =>
+               match dget k da, dget k dn with
+               | Some av, Some nv => if (k =? EP)%Z then ret (k, nv)
+                                     else r <- (if swap then binop op nv av else binop op av nv) ;;
+                                          ret (k, r)
+               | _, _ => raise KeyError
+               end) (set_order c (map fst da)).
+Definition values_add (c : cfg) (cur next : val) : M val := d <- values_combine c Z.add false cur next ;; new_dict d.
+Definition values_diff (c : cfg) (prev next : val) : M val := d <- values_combine c Z.sub true prev next ;; new_dict d.
 (* copy.deepcopy of a values dict *)
 Definition deepcopy_items (v : val) : M items :=
   d <- get_dict v ;;
@@ -381,7 +383,7 @@ Definition cum_step (c : cfg) (st : val * Z * list val) (cell : val) : M (val * 
   let '(cur, cur_tag, out) := st in
   x <- get_cell cell ;;
   if negb (chain_ok c cur_tag (fst x)) then raise TriangleError
-  else cur' <- values_add cur (snd x) ;;
+  else cur' <- values_add c cur (snd x) ;;
        nc <- new_cell true (fst x) cur' ;;
        ret (cur', fst x, out ++ [nc]).
 Definition to_cumulative_row (c : cfg) (cells : list val) : M (list val) :=
@@ -423,20 +425,20 @@ Definition to_cumulative_row_mutant (c : cfg) (cells : list val) : M (list val) 
            ret (snd st)
   end.
 (* one row of to_incremental: deepcopy of the first cell, _values_diff of consecutive pairs *)
-Fixpoint inc_pairs (prev : val) (cells : list val) : M (list val) :=
+Fixpoint inc_pairs (cf : cfg) (prev : val) (cells : list val) : M (list val) :=
   match cells with
   | [] => ret []
   | c :: r => xp <- get_cell prev ;; x <- get_cell c ;;
-              d <- values_diff (snd xp) (snd x) ;;
+              d <- values_diff cf (snd xp) (snd x) ;;
               nc <- new_cell true (fst x) d ;;
-              rest <- inc_pairs c r ;; ret (nc :: rest)
+              rest <- inc_pairs cf c r ;; ret (nc :: rest)
   end.
-Definition to_incremental_row (cells : list val) : M (list val) :=
+Definition to_incremental_row (cf : cfg) (cells : list val) : M (list val) :=
   match cells with
   | [] => ret []
   | c0 :: rest =>
       x0 <- get_cell c0 ;; v0 <- deepcopy_dict (snd x0) ;; n0 <- new_cell true (fst x0) v0 ;;
-      r <- inc_pairs c0 rest ;; ret (n0 :: r)
+      r <- inc_pairs cf c0 rest ;; ret (n0 :: r)
   end.
 
 (* ------------------------------------------------------------------ aggregate.py *)
@@ -538,7 +540,8 @@ Definition blend_field (ds : list items) (picks : list nat) (k : key) : M (key *
       else raise TypeError
   | _ => raise TypeError
   end.
-Definition blend_cells (cells : list val) (picks : list nat) : M val :=
+(* `for field in fields` iterates a SET: which of several refusals fires first depends on its order *)
+Definition blend_cells (c : cfg) (cells : list val) (picks : list nat) : M val :=
   match cells with
   | [] => raise IndexError
   | c0 :: _ =>
@@ -547,7 +550,7 @@ Definition blend_cells (cells : list val) (picks : list nat) : M val :=
       | [] => raise IndexError
       | d0 :: dr =>
           if negb (forallb (same_keys d0) dr) then raise ValueError
-          else clean <- mapM (blend_field ds picks) (map fst d0) ;;
+          else clean <- mapM (blend_field ds picks) (set_order c (map fst d0)) ;;
                nv <- new_dict clean ;; replace c0 [DValues nv]
       end
   end.
@@ -581,7 +584,7 @@ Definition blend_cells_linear (c : cfg) (cells : list val) (ws : list Z) : M val
       | d0 :: dr =>
           if negb (forallb (same_keys d0) dr) then raise ValueError
           else if negb (length ws =? length cells) then raise ValueError
-          else clean <- mapM (blend_field_linear c ds ws) (map fst d0) ;;
+          else clean <- mapM (blend_field_linear c ds ws) (set_order c (map fst d0)) ;;
                nv <- new_dict clean ;; replace c0 [DValues nv]
       end
   end.
@@ -718,14 +721,14 @@ Definition run (c : cfg) (k : call) : M res :=
   | KMergeCellPair c1 c2 => lift RVal (merge_cell_pair c1 c2)
   | KOverwriteValues c1 c2 s => lift RVal (overwrite_values c1 c2 s)
   | KThinCell cell ndxs => lift RVal (thin_cell cell ndxs)
-  | KValuesAdd a b => lift RVal (values_add a b)
-  | KValuesDiff a b => lift RVal (values_diff a b)
+  | KValuesAdd a b => lift RVal (values_add c a b)
+  | KValuesDiff a b => lift RVal (values_diff c a b)
   | KToCumulativeRow cells => lift RVals (to_cumulative_row c cells)
-  | KToIncrementalRow cells => lift RVals (to_incremental_row cells)
+  | KToIncrementalRow cells => lift RVals (to_incremental_row c cells)
   | KAggregateGroup t cells p => lift RVal (aggregate_group c t cells p)
   | KWeightCellValues cell ws => lift RNested (weight_cell_values c cell ws)
   | KPolicyYearCell t cells shares => lift RVal (policy_year_cell c t cells shares)
-  | KBlendCells cells picks => lift RVal (blend_cells cells picks)
+  | KBlendCells cells picks => lift RVal (blend_cells c cells picks)
   | KBlendCellsLinear cells ws => lift RVal (blend_cells_linear c cells ws)
   end.
 (* the buggy variants, for the non-vacuity examples and the harness self-test *)
@@ -867,4 +870,7 @@ Definition mutant_writes (c : cfg) (h : heap) (k : call) : bool :=
   match run_mutant c k h with Ret h' _ | Raise h' _ => negb (frozen_b h h') end.
 Definition default_cfg : cfg :=
   mkCfg Z.mul Z.div None (fun _ => true) (fun k => (k =? EP)%Z) (fun _ => None)
-        (fun a b => (b =? a + 1)%Z) (fun t => (t =? 0)%Z).
+        (fun a b => (b =? a + 1)%Z) (fun t => (t =? 0)%Z) (fun ks => ks).
+(* the same oracles with the observed set iteration order *)
+Definition with_set_order (c : cfg) (l : list key) : cfg :=
+  mkCfg (mulop c) (divop c) (post c) (known c) (non_loss c) (wavg c) (chain_ok c) (first_ok c) (fun _ => l).
